@@ -227,6 +227,11 @@ func (db *ContractDB) LoadFile(path, pkgPath string, assumed bool) error {
 				}
 				db.Funcs[fc.FullName()] = fc
 				curFn = fc
+			case "functype":
+				// contract assumed for every value of a named function type: functype TypeName
+				fc := &FuncContract{Pkg: pkgPath, Key: "functype:" + rest, Loops: map[string][]Clause{}, Flags: map[string]string{}, Assumed: true, File: l.file, Line: l.line}
+				db.Funcs[fc.FullName()] = fc
+				curFn = fc
 			case "funcfield":
 				// contract assumed for every function value stored in a struct field: funcfield Type.field
 				fc := &FuncContract{Pkg: pkgPath, Key: "field:" + rest, Loops: map[string][]Clause{}, Flags: map[string]string{}, Assumed: true, File: l.file, Line: l.line}
